@@ -86,6 +86,23 @@ def discharge(ob, tier="quick", want_model=True):
     if z3.is_true(z3.simplify(goal)):
         ob.status, ob.backend, ob.time = "proved", "simplifier", time.time() - t0
         return ob
+    if getattr(ob, "prefer_bv", False):
+        r0 = try_bitblast(ob.pc, goal, rl)
+        if r0 == z3.unsat:
+            ob.status, ob.backend, ob.time = "proved", "z3-%s(api, bit-blast tactic)" % z3.get_version_string(), time.time() - t0
+            return ob
+    if _has_quant(ob.pc, goal):
+        # quantified context: a cheap first attempt by e-matching only (no model-based instantiation); `unsat` is a proof
+        s0 = z3.Solver()
+        s0.set("smt.mbqi", False)
+        s0.set("smt.auto_config", False)
+        s0.set("rlimit", min(rl, 5_000_000))
+        for c in ob.pc:
+            s0.add(c)
+        s0.add(z3.Not(goal))
+        if s0.check() == z3.unsat:
+            ob.status, ob.backend, ob.time = "proved", "z3-%s(api, e-matching)" % z3.get_version_string(), time.time() - t0
+            return ob
     if getattr(ob, "logic", None):
         # opt-in per contract (tag "logic=AUFLIA"): quantified array obligations whose counter-models the default
         # strategy leaves `unknown`; unsat is a proof, sat yields the model that the native replay then judges
@@ -110,23 +127,6 @@ def discharge(ob, tier="quick", want_model=True):
                 except Exception:
                     ob.model = {}
             ob.time = time.time() - t0
-            return ob
-    if getattr(ob, "prefer_bv", False):
-        r0 = try_bitblast(ob.pc, goal, rl)
-        if r0 == z3.unsat:
-            ob.status, ob.backend, ob.time = "proved", "z3-%s(api, bit-blast tactic)" % z3.get_version_string(), time.time() - t0
-            return ob
-    if _has_quant(ob.pc, goal):
-        # quantified context: a cheap first attempt by e-matching only (no model-based instantiation); `unsat` is a proof
-        s0 = z3.Solver()
-        s0.set("smt.mbqi", False)
-        s0.set("smt.auto_config", False)
-        s0.set("rlimit", min(rl, 5_000_000))
-        for c in ob.pc:
-            s0.add(c)
-        s0.add(z3.Not(goal))
-        if s0.check() == z3.unsat:
-            ob.status, ob.backend, ob.time = "proved", "z3-%s(api, e-matching)" % z3.get_version_string(), time.time() - t0
             return ob
     s = _solver(ob.pc, goal, rl)
     r = s.check()
